@@ -240,6 +240,7 @@ type HarnessResult struct {
 	SolverQueries int                    `json:"solver_queries"`
 	SolverS       float64                `json:"solver_s"`
 	SolverErrors  []string               `json:"solver_errors,omitempty"`
+	UnknownReasons []string              `json:"unknown_reasons,omitempty"`
 	WallS         float64                `json:"wall_s"`
 	Truncated     bool                   `json:"truncated"`
 	Stubs         map[string]int         `json:"stub_calls"`
@@ -359,6 +360,11 @@ func (E *Engine) RunHarness(spec string) (*HarnessResult, error) {
 		for _, e := range s.Errors {
 			if len(h.results.SolverErrors) < 10 {
 				h.results.SolverErrors = append(h.results.SolverErrors, e)
+			}
+		}
+		for _, e := range s.UnknownReasons {
+			if len(h.results.UnknownReasons) < 10 {
+				h.results.UnknownReasons = append(h.results.UnknownReasons, e)
 			}
 		}
 		s.Close()
